@@ -193,6 +193,34 @@ def sparse_grid_spec(draw):
             "mode": "raw", "bind": draw(st.sampled_from(["auto", "explicit"])), "warmup": []}
 
 
+@st.composite
+def signed_zero_spec(draw):
+    """CF grids with stored per-cell bounds, moved so that an interior cell edge (1-D) or an
+    interior corner (2-D) lies exactly on zero, where neighbouring cells store that zero with
+    different signs."""
+    if draw(st.booleans()):
+        spec = draw(S.dataset_spec(convs=["cf1d"], with_vars=False, modes=("raw",),
+                                   geom_kwargs={"bounds_kinds": ("contig",), "min_n": 2}))
+        g = spec["geom"]
+        for axis in ("lon", "lat"):
+            rows = g[axis + "_bounds"]
+            k = draw(st.integers(0, len(rows) - 2))
+            edge = rows[k][1] if rows[k][1] in rows[k + 1] else rows[k][0]
+            g[axis] = [v - edge for v in g[axis]]
+            g[axis + "_bounds"] = [[a - edge, b - edge] for a, b in rows]
+    else:
+        spec = draw(S.dataset_spec(convs=["cf2d", "shoc_simple"], with_vars=False, modes=("raw",),
+                                   geom_kwargs={"bounds": True, "holes": False}))
+        g = spec["geom"]
+        nodes = g["nodes"]
+        j = draw(st.integers(0, len(nodes) - 1))
+        i = draw(st.integers(0, len(nodes[0]) - 1))
+        x0, y0 = nodes[j][i]
+        g["nodes"] = [[[x - x0, y - y0] for x, y in row] for row in nodes]
+    g["negative_zero"] = True
+    return spec
+
+
 def check_sparse(spec, ctx):
     check_spec(spec, ctx)
     holes = spec["geom"]["holes"]
@@ -203,14 +231,17 @@ def check_sparse(spec, ctx):
 
 
 def mesh_strategy(tier):
+    # (lattice units down to 2**-20, about 1e-6: cells whose sides are shorter than any
+    # plausible "snap together" tolerance are still cells)
     return S.dataset_spec(convs=["ugrid"], with_vars=False, modes=("raw",),
-                          geom_kwargs={"jitter": False})
+                          geom_kwargs={"jitter": False, "unit_exps": (3, 3, 4, 10, 20, 20)})
 
 
 SUBS = [
     Sub("datasets", strategy, check_spec, quick=150, thorough=800),
     Sub("polyomino_meshes", mesh_strategy, check_spec, quick=100, thorough=600),
     Sub("star_meshes", lambda tier: star_mesh_spec(), check_spec, quick=150, thorough=1000),
+    Sub("signed_zero_corners", lambda tier: signed_zero_spec(), check_spec, quick=30, thorough=200),
     Sub("sparse_large_grids", lambda tier: sparse_grid_spec(), check_sparse, quick=25, thorough=200),
 ]
 MATCHERS = {}
